@@ -164,6 +164,17 @@ func (i *ignore) TeardownBlockStatement(meta *ast.Meta) {
 		}
 	}
 
+	// The comments placed before the closing brace are the infix comments of the block,
+	// a range may start or end there
+	for _, c := range meta.Infix {
+		switch ignoreType, rules := parseIgnoreComment(c.String()); ignoreType {
+		case falcoIgnoreStart:
+			ignoreRules(&i.ignoreRange, rules)
+		case falcoIgnoreEnd:
+			unignoreRules(&i.ignoreRange, rules)
+		}
+	}
+
 	for _, c := range meta.Trailing {
 		switch ignoreType, rules := parseIgnoreComment(c.String()); ignoreType {
 		case falcoIgnoreThisLine:
